@@ -231,6 +231,9 @@ func decodeResult(name string, in []byte) ([]uint64, string, error) {
 	return []uint64{rem()}, "", nil
 }
 
+// lastTerm: a Coq case term built by the decoder itself (the json decoder)
+var lastTerm string
+
 func workerMain() {
 	// a terabyte makeslice must fail here, not take the machine down
 	lim := syscall.Rlimit{Cur: 3 << 30, Max: 3 << 30}
@@ -262,7 +265,8 @@ func workerMain() {
 			}
 			ds = sb.String()
 		}
-		fmt.Fprintf(wr, "%s %d %d %s x%s x%s %d\n", class, code, alloc, ds, hex.EncodeToString([]byte(msg)), hex.EncodeToString([]byte(extra)), baseline(f[0]))
+		fmt.Fprintf(wr, "%s %d %d %s x%s x%s %d x%s\n", class, code, alloc, ds, hex.EncodeToString([]byte(msg)), hex.EncodeToString([]byte(extra)), baseline(f[0]), hex.EncodeToString([]byte(lastTerm)))
+		lastTerm = ""
 		wr.Flush()
 	}
 }
